@@ -91,7 +91,8 @@ def canon(v, depth=0):
     if isinstance(v, dict):
         return {str(k): canon(x, depth + 1) for k, x in sorted(v.items(), key=lambda kv: str(kv[0]))}
     if isinstance(v, Bitfield.BitWrapper):
-        return {b.name: getattr(v, b.name) for b in v._bits}
+        from gen.fieldprobe import wrapper_bit_names
+        return {n: getattr(v, n) for n in wrapper_bit_names(v)}
     if isinstance(v, Message):
         from . import codec_util as U
         return {'__msg__': type(v).__name__, 'env': [list(x[:1]) + [canon(y) for y in x[1:]] for x in U.canon_env(v)]}
